@@ -2118,4 +2118,43 @@ theorem splitName_joinName_aux (ns : List Str) (hne : ns ≠ []) (h : ∀ n ∈ 
     funext n; exact unescapeName_escapeName n
   rw [this, resAll_ok]
 
+
+
+theorem resetChannel_follows {α : Type} (C : Cls α) (B : Str) (s s' : St α) (n c : Str)
+    (h : resetChannel C B s (some n) c = (s', .done)) :
+    ∃ nv, findKey n s'.var.nets = some nv ∧ s'.var.value = s.var.value ∧
+      resolve s'.var (some n) (some c) = some (if nv.wasSet then nv.value else s.var.value) := by
+  unfold resetChannel at h
+  simp only at h
+  split at h
+  · simp at h
+  · rename_i x1 hstep
+    split at hstep
+    · simp at hstep
+    · rename_i x0 nv ncv hg
+      simp only [Prod.mk.injEq, and_true] at hstep
+      subst hstep
+      have sp := getNetChan_spec C B s.cache s.var x0 n c nv ncv hg
+      split at h
+      · simp at h
+      · rename_i x2 cv hc
+        simp only [Prod.mk.injEq, and_true] at h
+        subst h
+        have sp2 := getChan_spec C B s.cache _ x2 c cv hc
+        -- nets of x2 are those of the tree after the first assignment
+        have hnets : x2.nets = updKey n (fun m => { m with chans := updKey c (fun l => l.setV nv.value true) m.chans }) x0.nets := by
+          rw [sp2.2.1]; rfl
+        have hval : x2.value = s.var.value := by rw [sp2.2.2.1]; simp [Var.assign, sp.2.2.2.1]
+        refine ⟨{ nv with chans := updKey c (fun l => l.setV nv.value true) nv.chans }, ?_, ?_, ?_⟩
+        · simp only [Var.assign, hnets]
+          rw [findKey_updKey_eq n n _ _ (keyEq_refl n), sp.1]; rfl
+        · simp [Var.assign, hval]
+        · simp only [resolve, Var.assign, hnets]
+          rw [findKey_updKey_eq n n _ _ (keyEq_refl n), sp.1]
+          simp only [Option.map_some]
+          rw [findKey_updKey_eq c c _ _ (keyEq_refl c), sp2.1]
+          simp only [Option.map_some]
+          rw [findKey_updKey_eq c c _ _ (keyEq_refl c), sp.2.1]
+          simp [Leaf.setV, hval]
+
 end C15
